@@ -168,11 +168,13 @@ class Braid:
             w = hit
 
     def levels(self, L, cap=None):
-        """Breadth-first: list over n=0..L of the sorted reduced words of length n; every one-letter
-        extension of a reduced word is classified.  Stops early when a level is empty (finite group)
-        or when the number of reduced words exceeds `cap` (returns the completed levels)."""
+        """Breadth-first: list over n=0..L of the reduced words of length n (in shortlex order);
+        every one-letter extension of a reduced word is classified.  Stops early when a level is
+        empty (finite group).  When the number of reduced words exceeds `cap` the level under
+        construction is dropped, `self.capped` is set and the completed levels are returned."""
         out = [[()]]
         total = 1
+        self.capped = False
         for n in range(L):
             nxt = []
             for w in out[-1]:
@@ -180,12 +182,13 @@ class Braid:
                     u = w + (s,)
                     if self.classify(u)[0]:
                         nxt.append(u)
+                if cap is not None and total + len(nxt) > cap:
+                    self.capped = True
+                    return out
             if not nxt:
                 break
             total += len(nxt)
             out.append(nxt)
-            if cap is not None and total > cap:
-                break
         return out
 
 
